@@ -190,3 +190,90 @@ Theorem x_block_job_ok : forall f flen off bytes done k rest,
   else if x_block_job_complete (done + k) bytes then mkOut StOk [(req, XOk k)] rest
   else out_cons (req, XOk k) (block_job f flen off bytes (done + k) rest).
 Proof. reflexivity. Qed.
+
+(* ------------------------------------------------------------------ *)
+(* the translated effectful loops equal the hand-written models          *)
+(* ------------------------------------------------------------------ *)
+From XcpModel Require Import Uspace.
+
+Definition out_app (tr : xtrace) (o : loop_out) : loop_out := mkOut (o_st o) (tr ++ o_trace o) (o_rest o).
+
+Lemma x_copy_bytes_loop_ok : forall fuel len bs written cur tr ans,
+  x_copy_bytes_loop fuel len bs written cur tr ans = out_app tr (copy_bytes fuel bs len written cur ans).
+Proof.
+  induction fuel as [|f IH]; intros len bs written cur tr ans.
+  - cbn [x_copy_bytes_loop copy_bytes]. destruct (N.ltb_spec written len), (N.leb_spec len written); try lia;
+      unfold out_app; cbn [o_st o_trace o_rest]; now rewrite app_nil_r.
+  - cbn [x_copy_bytes_loop copy_bytes]. destruct (N.ltb_spec written len), (N.leb_spec len written); try lia;
+      [|unfold out_app; cbn [o_st o_trace o_rest]; now rewrite app_nil_r].
+    destruct ans as [|[k|e] rest]; unfold out_app; cbn [o_st o_trace o_rest].
+    + now rewrite app_nil_r.
+    + destruct (N.eqb_spec k 0) as [->|Hk]; cbn [o_st o_trace o_rest]; [reflexivity|].
+      rewrite IH. unfold out_app, out_cons. cbn [o_st o_trace o_rest]. now rewrite <- app_assoc.
+    + reflexivity.
+Qed.
+
+Theorem x_copy_bytes_ok : forall fuel bs len cur ans,
+  x_copy_bytes fuel len bs cur ans = copy_bytes fuel bs len 0 cur ans.
+Proof.
+  intros. unfold x_copy_bytes. rewrite x_copy_bytes_loop_ok. unfold out_app. cbn [app].
+  destruct (copy_bytes fuel bs len 0 cur ans); reflexivity.
+Qed.
+
+Ltac fin := rewrite <- ?app_assoc; cbn [app]; reflexivity.
+
+Lemma u_app_nil o : u_app [] o = o.
+Proof. destruct o; reflexivity. Qed.
+Lemma u_app_app a b o : u_app a (u_app b o) = u_app (a ++ b) o.
+Proof. unfold u_app. cbn [u_st u_ret u_trace u_rest]. now rewrite app_assoc. Qed.
+
+Lemma x_copy_range_uspace_loop_ok : forall fuel nbytes off written tr ans,
+  x_copy_range_uspace_loop fuel nbytes off written tr ans = u_app tr (copy_range_uspace fuel nbytes off written ans).
+Proof.
+  induction fuel as [|f IH]; intros nbytes off written tr ans.
+  - cbn [x_copy_range_uspace_loop copy_range_uspace]. destruct (N.ltb_spec written nbytes), (N.leb_spec nbytes written); try lia;
+      unfold u_app; cbn [u_st u_ret u_trace u_rest]; now rewrite app_nil_r.
+  - cbn [x_copy_range_uspace_loop copy_range_uspace]. destruct (N.ltb_spec written nbytes), (N.leb_spec nbytes written); try lia;
+      [|unfold u_app; cbn [u_st u_ret u_trace u_rest]; now rewrite app_nil_r].
+    replace (N.min (nbytes - written) nbytes) with (nbytes - written) by lia.
+    destruct ans as [|[rlen|e] rest]; unfold u_app at 1; cbn [u_st u_ret u_trace u_rest].
+    + now rewrite app_nil_r.
+    + destruct (N.eqb_spec rlen 0) as [->|Hr]; cbn [u_st u_ret u_trace u_rest]; [reflexivity|].
+      destruct rest as [|[wlen|e] rest']; cbn [u_st u_ret u_trace u_rest].
+      * fin.
+      * destruct (N.ltb_spec wlen rlen); cbn [u_st u_ret u_trace u_rest]; [fin|].
+        rewrite IH. unfold u_app. cbn [u_st u_ret u_trace u_rest]. fin.
+      * fin.
+    + reflexivity.
+Qed.
+
+Theorem x_copy_range_uspace_ok : forall fuel nbytes off ans,
+  x_copy_range_uspace fuel nbytes off ans = copy_range_uspace fuel nbytes off 0 ans.
+Proof. intros. unfold x_copy_range_uspace. rewrite x_copy_range_uspace_loop_ok. apply u_app_nil. Qed.
+
+Lemma x_copy_bytes_uspace_loop_ok : forall fuel nbytes written rpos wpos tr ans,
+  x_copy_bytes_uspace_loop fuel nbytes written rpos wpos tr ans =
+  u_app tr (copy_bytes_uspace fuel nbytes rpos wpos written ans).
+Proof.
+  induction fuel as [|f IH]; intros nbytes written rpos wpos tr ans.
+  - cbn [x_copy_bytes_uspace_loop copy_bytes_uspace]. destruct (N.ltb_spec written nbytes), (N.leb_spec nbytes written); try lia;
+      unfold u_app; cbn [u_st u_ret u_trace u_rest]; now rewrite app_nil_r.
+  - cbn [x_copy_bytes_uspace_loop copy_bytes_uspace]. destruct (N.ltb_spec written nbytes), (N.leb_spec nbytes written); try lia;
+      [|unfold u_app; cbn [u_st u_ret u_trace u_rest]; now rewrite app_nil_r].
+    replace (N.min (nbytes - written) nbytes) with (nbytes - written) by lia.
+    destruct ans as [|[len|e] rest].
+    + unfold u_app; cbn [u_st u_ret u_trace u_rest]. now rewrite app_nil_r.
+    + destruct (N.eqb_spec len 0) as [->|Hl]; [unfold u_app; cbn [u_st u_ret u_trace u_rest]; reflexivity|].
+      destruct (u_st (write_all (S (List.length rest)) rpos wpos len rest)) eqn:Ew.
+      * rewrite IH. unfold u_app. cbn [u_st u_ret u_trace u_rest]. fin.
+      * unfold u_app; cbn [u_st u_ret u_trace u_rest]. fin.
+      * unfold u_app; cbn [u_st u_ret u_trace u_rest]. fin.
+      * unfold u_app; cbn [u_st u_ret u_trace u_rest]. fin.
+    + destruct (N.eqb_spec e EINTR) as [->|He].
+      * rewrite IH. unfold u_cons, u_app. cbn [u_st u_ret u_trace u_rest]. fin.
+      * unfold u_app; cbn [u_st u_ret u_trace u_rest]. reflexivity.
+Qed.
+
+Theorem x_copy_bytes_uspace_ok : forall fuel nbytes rpos wpos ans,
+  x_copy_bytes_uspace fuel nbytes rpos wpos ans = copy_bytes_uspace fuel nbytes rpos wpos 0 ans.
+Proof. intros. unfold x_copy_bytes_uspace. rewrite x_copy_bytes_uspace_loop_ok. apply u_app_nil. Qed.
